@@ -16,7 +16,7 @@ from fractions import Fraction
 from engine import term as T, agg, build, vg, poly as P, polycheck as PC
 from engine.agg import ELEM, TU
 from engine.report import HOLDS, VIOLATED, UNDECIDED
-from .common import Analysed, fn_where
+from .common import Analysed, fn_where, narrowing
 
 HDR = agg.HEADER + '#include <ImathFrustum.h>\n#include <ImathFrustumTest.h>\ntemplate <class T> struct FP : public Frustum<T> { using Frustum<T>::localToScreen; using Frustum<T>::screenToLocal; };\n'
 ONE = P.pconst(1)
@@ -516,6 +516,7 @@ def main(rep, ws, tier):
         ob('FrustumTest::completelyContains(box)', 'R16.ft', ft_pred('w_ft_in_box', 'box', 1))
         ob('FrustumTest::isVisible(sphere)', 'R16.ft', ft_pred('w_ft_vis_sph', 'sph', -1))
         ob('FrustumTest::completelyContains(sphere)', 'R16.ft', ft_pred('w_ft_in_sph', 'sph', 1))
+    narrowing(rep, ws, [gen('d')], 'R16.prec')
     rep.floor('frustum obligations', len(rep.obs), 20 * len(types))
     rep.assumptions += ['exact real arithmetic at a generic point', '0 < near < far, left < right, bottom < top for the orientation rule', 'the throwing twins are covered by C07']
     rep.undecided_clauses += ['planes(p, M) for a general (non-identity) M', 'long <-> T truncation in ZToDepth / DepthToZ', 'rounding']
